@@ -61,6 +61,14 @@ func fnValueName(v ssa.Value) string {
 		if x.Op == token.MUL {
 			return fnValueName(x.X)
 		}
+	case *ssa.FieldAddr:
+		if st, ok := x.X.Type().Underlying().(*types.Pointer).Elem().Underlying().(*types.Struct); ok {
+			return st.Field(x.Field).Name()
+		}
+	case *ssa.Field:
+		if st, ok := x.X.Type().Underlying().(*types.Struct); ok {
+			return st.Field(x.Field).Name()
+		}
 	}
 	return ""
 }
